@@ -664,7 +664,11 @@ impl<'a> P<'a> {
 
     fn update_stmt(&mut self, mut out: Vec<Tree>) -> R<Tree> {
         self.expect_word("UPDATE")?;
-        out.push(n("table", vec![self.qname()?]));
+        let mut target = vec![self.qname()?];
+        if self.eat_word("AS") {
+            target.push(n("AS", vec![a(self.ident()?)]));
+        }
+        out.push(n("table", target));
         if self.is_word("JOIN") {
             if !self.mysql() {
                 return self.err("UPDATE .. JOIN is MySQL syntax");
@@ -735,7 +739,11 @@ impl<'a> P<'a> {
     fn delete_stmt(&mut self, mut out: Vec<Tree>) -> R<Tree> {
         self.expect_word("DELETE")?;
         self.expect_word("FROM")?;
-        out.push(n("table", vec![self.qname()?]));
+        let mut target = vec![self.qname()?];
+        if self.eat_word("AS") {
+            target.push(n("AS", vec![a(self.ident()?)]));
+        }
+        out.push(n("table", target));
         if self.eat_word("WHERE") {
             out.push(n("WHERE", vec![Tree::E(self.expr()?)]));
         }
